@@ -286,6 +286,37 @@ impl<'a, T: RealNumber, M: Matrix<T>> ObjectiveFunction<T, M>
     }
 }
 
+/// Verification hook (cfg `smartcore_verif` only): value and gradient of the private two-class
+/// objective (`y` holds class indices 0/1, `w` is the 1 x (p+1) row of weights followed by the bias).
+#[cfg(smartcore_verif)]
+pub fn verif_binary_objective<T: RealNumber, M: Matrix<T>>(
+    x: &M,
+    y: Vec<usize>,
+    alpha: T,
+    w: &M,
+) -> (T, M) {
+    let objective = BinaryObjectiveFunction { x, y, alpha };
+    let mut g = M::zeros(1, w.shape().1);
+    objective.df(&mut g, w);
+    (objective.f(w), g)
+}
+
+/// Verification hook (cfg `smartcore_verif` only): value and gradient of the private multinomial
+/// objective (`y` holds class indices < k, `w` is the 1 x k(p+1) row of per-class weights and biases).
+#[cfg(smartcore_verif)]
+pub fn verif_multiclass_objective<T: RealNumber, M: Matrix<T>>(
+    x: &M,
+    y: Vec<usize>,
+    k: usize,
+    alpha: T,
+    w: &M,
+) -> (T, M) {
+    let objective = MultiClassObjectiveFunction { x, y, k, alpha };
+    let mut g = M::zeros(1, w.shape().1);
+    objective.df(&mut g, w);
+    (objective.f(w), g)
+}
+
 impl<T: RealNumber, M: Matrix<T>>
     SupervisedEstimator<M, M::RowVector, LogisticRegressionParameters<T>>
     for LogisticRegression<T, M>
